@@ -13,7 +13,6 @@ package main
 
 import (
 	"fmt"
-	"go/ast"
 	"go/token"
 	"go/types"
 	"math"
@@ -32,160 +31,78 @@ type c15 struct {
 func checkC15(c *Ctx) {
 	c.Rule("C15.R1", "Similar, evaluated in both directions on model pairs for each of the eight types: true for a perturbed copy, also with members reordered and closed rings rotated; false when a vertex is displaced, a member or vertex is added or removed, a line is reversed, or a duplicated member stands against a different one; and always symmetric")
 	c.Rule("C15.R2", "Similar is false for every ordered pair of different geometry types (model evaluation)")
-	c.Rule("C15.R3", "model evaluation of the scalar tolerance test the Similar methods reach (found by behaviour among the helpers of that signature) on symbolic arguments under eleven separating valuations: |a−b| < tol, strict (a difference of exactly the tolerance and a zero tolerance on equal values are rejected) and bounding both signs of the difference")
+	c.Rule("C15.R3", "model evaluation of Point.Similar on two points differing in one coordinate (each axis), symbolic coordinates and tolerance under eleven separating valuations: the tolerance test is |a−b| < tol, strict (a difference of exactly the tolerance and a zero tolerance on equal values are rejected) and bounding both signs of the difference")
 	pk := c.P.Pkg("geom")
 	a := &c15{c: c, info: pk.TypesInfo, summary: map[string]int{}}
 	c15model(c, "C15.R1", "C15.R2", "C15.R3")
 	a.scalarOnly()
 	c.Floor("C15.R1", 8)
 	c.Floor("C15.R2", 1)
-	c.Floor("C15.R3", 1)
+	c.Floor("C15.R3", 2)
 }
 
-// scalarOnly (C15.R3): the arithmetic of the tolerance test itself (the model gives the test its
-// meaning and cannot judge it).  The tolerance tests are found by behaviour among the helpers of
-// signature (float64, float64, float64) bool that the Similar methods reach (c15toleranceTests);
-// each is evaluated on symbolic arguments under valuations that separate |a − b| < tol from its
-// neighbours: a difference of exactly the tolerance (either sign), a tolerance of zero on equal
-// values, far apart in either direction, near in either direction.
+// scalarOnly (C15.R3): the arithmetic of the tolerance test, observed at the API: Point.Similar on
+// two points that differ in one coordinate only (each axis in turn), with symbolic coordinates and
+// tolerance under valuations that separate |a − b| < tol from its neighbours — a difference of
+// exactly the tolerance (either sign), a tolerance of zero on equal values, far apart in either
+// direction, near in either direction.  Which helper holds the comparison is immaterial.
 func (a *c15) scalarOnly() {
 	c := a.c
-	tests := c15toleranceTests(c)
-	for _, fn := range tests {
-		fd := c.P.Decl(fn)
-		name := c.P.FuncName(fn)
-		type tc struct {
-			a, b, e float64
-			want    bool
-			kind    string
-		}
+	sim := c.P.Method("geom", "Point", "Similar")
+	ptT := c.P.NamedType("geom", "Point")
+	if sim == nil || c.P.Decl(sim) == nil || ptT == nil {
+		c.Unk("C15.R3", "geom.(Point).Similar", token.NoPos, "API anchor does not resolve")
+		return
+	}
+	type tc struct {
+		a, b, e float64
+		want    bool
+		kind    string
+	}
+	for _, axis := range []string{"X", "Y"} {
+		name := "geom.(Point).Similar#tolerance(" + axis + ")"
 		bad, unk := "", ""
 		for _, t := range []tc{
 			{1, 1.5, 1, true, ""}, {1.5, 1, 1, true, ""}, {-2, -2.25, 0.5, true, ""}, {10, 10, 0.001, true, ""},
 			{1, 3, 1, false, "onesided"}, {3, 1, 1, false, "onesided"}, {-2, 2, 0.5, false, "onesided"}, {2, -2, 0.5, false, "onesided"},
 			{1, 2, 1, false, "nonstrict"}, {2, 1, 1, false, "nonstrict"}, {5, 5, 0, false, "nonstrict"},
 		} {
-			got, why := c15evalScalar(c, fn, t.a, t.b, t.e)
-			if why != "" {
-				unk = "the tolerance test is not interpretable: " + why
+			symResetEval()
+			it := &oInterp{p: c.P, maxDepth: 48, symbolic: true}
+			it.valuation = map[string]float64{"ta": t.a, "tb": t.b, "te": t.e, "tc": 7}
+			mk := func(v string) oval {
+				st := it.zero(ptT).(*oStruct)
+				st.fields["X"], st.fields["Y"] = oSym{polyVar("tc")}, oSym{polyVar("tc")}
+				st.fields[axis] = oSym{polyVar(v)}
+				return st
+			}
+			c.Evals(1)
+			res, why := it.Call(sim, mk("ta"), []oval{oIface{dyn: mk("tb")}, oSym{polyVar("te")}}, 0)
+			if why != "" || len(res) != 1 {
+				unk = "Point.Similar is not interpretable: " + why
 				break
 			}
-			if got == t.want {
+			got, ok := res[0].(oBool)
+			if !ok {
+				unk = "Point.Similar returns " + showVal(res[0])
+				break
+			}
+			if bool(got) == t.want {
 				continue
 			}
-			switch {
-			case t.kind == "onesided":
-				bad = fmt.Sprintf("only one sign of the difference is bounded: %s(%v, %v, %v) is true although the values are %v apart, so Similar is not symmetric", fn.Name(), t.a, t.b, t.e, math.Abs(t.a-t.b))
-			case t.kind == "nonstrict":
-				bad = fmt.Sprintf("the tolerance test is not strict: %s(%v, %v, %v) is true (|a−b| ≤ tol): a vertex displaced by exactly the tolerance is accepted", fn.Name(), t.a, t.b, t.e)
+			what := fmt.Sprintf("two points whose %s coordinates are %v and %v (the other coordinate equal), tolerance %v", axis, t.a, t.b, t.e)
+			switch t.kind {
+			case "onesided":
+				bad = fmt.Sprintf("only one sign of the difference is bounded: %s are reported similar although they are %v apart, so Similar is not symmetric", what, math.Abs(t.a-t.b))
+			case "nonstrict":
+				bad = fmt.Sprintf("the tolerance test is not strict (|a−b| ≤ tol): %s are reported similar: a vertex displaced by exactly the tolerance is accepted", what)
 			default:
-				bad = fmt.Sprintf("%s(%v, %v, %v) is false although the values are within the tolerance", fn.Name(), t.a, t.b, t.e)
+				bad = fmt.Sprintf("%s are reported not similar although they are within the tolerance", what)
 			}
 			break
 		}
-		switch {
-		case bad != "":
-			c.Bad("C15.R3", name, fd.Pos(), "%s", bad)
-		case unk != "":
-			c.Unk("C15.R3", name, fd.Pos(), "%s", unk)
-		default:
-			c.OK("C15.R3", name, fd.Pos(), "|a−b| < tol on eleven separating valuations (strict, both signs of the difference bounded)")
-		}
+		report3(c, "C15.R3", name, c.P.Decl(sim).Pos(), bad, unk, "|a−b| < tol on eleven separating valuations (strict, both signs of the difference bounded)")
 	}
-	if len(tests) == 0 {
-		c.Unk("C15.R3", "geom#tolerance-test", token.NoPos, "no (float64, float64, float64) bool helper reached from the Similar methods behaves like a tolerance test (true for near values in both directions, false for far ones in at least one)")
-	}
-}
-
-// c15evalScalar evaluates a (float64, float64, float64) bool helper at one valuation.
-func c15evalScalar(c *Ctx, fn *types.Func, a, b, e float64) (bool, string) {
-	symResetEval()
-	it := &oInterp{p: c.P, maxDepth: 16, symbolic: true}
-	it.valuation = map[string]float64{"ta": a, "tb": b, "te": e}
-	c.Evals(1)
-	res, why := it.Call(fn, nil, []oval{oSym{polyVar("ta")}, oSym{polyVar("tb")}, oSym{polyVar("te")}}, 0)
-	if why != "" {
-		return false, why
-	}
-	if len(res) != 1 {
-		return false, "result count"
-	}
-	r, ok := res[0].(oBool)
-	if !ok {
-		return false, "the result is " + showVal(res[0])
-	}
-	return bool(r), ""
-}
-
-// c15toleranceTests: the helpers of signature (float64, float64, float64) bool in package geom
-// that a method named Similar reaches through calls, and that answer like a tolerance test: true
-// for near values in both directions, false for far values in at least one direction (a one-sided
-// or non-strict test is still a tolerance test — a broken one; a range test is not).
-func c15toleranceTests(c *Ctx) []*types.Func {
-	pk := c.P.Pkg("geom")
-	if pk == nil {
-		return nil
-	}
-	info := pk.TypesInfo
-	reached := map[*types.Func]bool{}
-	var work []*types.Func
-	for _, fn := range c.P.RepoFuncs() {
-		if c.P.DeclPkg(fn) == pk && fn.Name() == "Similar" && fn.Type().(*types.Signature).Recv() != nil {
-			reached[fn] = true
-			work = append(work, fn)
-		}
-	}
-	for len(work) > 0 {
-		fn := work[0]
-		work = work[1:]
-		fd := c.P.Decl(fn)
-		if fd == nil || fd.Body == nil {
-			continue
-		}
-		ast.Inspect(fd.Body, func(n ast.Node) bool {
-			var g *types.Func
-			switch x := n.(type) {
-			case *ast.CallExpr:
-				g = callee(info, x)
-			case *ast.Ident:
-				g, _ = info.Uses[x].(*types.Func) // a helper passed as a value
-			}
-			if g != nil && !reached[g] && c.P.DeclPkg(g) == pk {
-				reached[g] = true
-				work = append(work, g)
-			}
-			return true
-		})
-	}
-	var out []*types.Func
-	for _, fn := range c.P.RepoFuncs() {
-		if !reached[fn] {
-			continue
-		}
-		sig := fn.Type().(*types.Signature)
-		if sig.Recv() != nil || sig.Params().Len() != 3 || sig.Results().Len() != 1 {
-			continue
-		}
-		if !isFloat64(sig.Params().At(0).Type()) || !isFloat64(sig.Params().At(1).Type()) || !isFloat64(sig.Params().At(2).Type()) {
-			continue
-		}
-		if rb, ok := sig.Results().At(0).Type().Underlying().(*types.Basic); !ok || rb.Kind() != types.Bool {
-			continue
-		}
-		n1, w1 := c15evalScalar(c, fn, 1, 1.25, 1)
-		n2, w2 := c15evalScalar(c, fn, 1.25, 1, 1)
-		f1, w3 := c15evalScalar(c, fn, 1, 5, 1)
-		f2, w4 := c15evalScalar(c, fn, 5, 1, 1)
-		if w1+w2+w3+w4 != "" {
-			// not interpretable: kept, so that the rule reports it rather than passing it over
-			out = append(out, fn)
-			continue
-		}
-		if n1 && n2 && (!f1 || !f2) {
-			out = append(out, fn)
-		}
-	}
-	return out
 }
 
 type c15env struct {
